@@ -33,7 +33,8 @@ OPTIONAL = ["ellipse_axis_radii", "circularity", "perimeter", "iou"]
 # initial state
 # ----------------------------------------------------------------------------------------
 def gen_config(rnd, *, seg=None, ndim=None, allow_optional=True, per_axis=True, allow_seg_axes=False,
-               max_frames=6, big_frames=False, allow_stray=False, allow_default_feature=False) -> dict:
+               max_frames=6, big_frames=False, allow_stray=False, allow_default_feature=False,
+               allow_partial_registry=False) -> dict:
     ndim = ndim if ndim is not None else (4 if rnd.random() < 0.25 else 3)
     seg = seg if seg is not None else rnd.random() < 0.6
     r = rnd.random()
@@ -61,6 +62,8 @@ def gen_config(rnd, *, seg=None, ndim=None, allow_optional=True, per_axis=True, 
     }
     if cfg["route"] == "from_tracks_partial_ids":
         cfg["partial_kind"] = rnd.choice(["both", "both", "lineage_only", "no_lineage_at_all"])
+    if allow_partial_registry and cfg["route"] == "featuredict" and rnd.random() < 0.4:
+        cfg["fd_drop_lineage"] = True  # a pre-built registry that does not list the lineage feature
     if seg:
         cfg["shape"] = [4, 6, 6] if ndim == 4 else rnd.choice([[8, 8], [9, 7], [10, 10]])
         if big_frames and rnd.random() < 0.5:
@@ -219,6 +222,8 @@ def gen_init(rnd, cfg=None, *, max_nodes=10, need_edges=False) -> dict:
     children: dict[int, int] = {}
     occupied = [np.zeros(tuple(shape), dtype=bool) for _ in range(frames)] if cfg["seg"] else None
     p_link = rnd.choice([0.5, 0.8, 0.95])
+    if rnd.random() < 0.04:
+        p_link = 0.0  # detections only: every link is made later, by edits
     p_div = rnd.choice([0.1, 0.3, 0.6])
     for nid, t in zip(ids, times):
         parent = None
@@ -459,7 +464,13 @@ class World:
                 tracks = SolutionTracks(g, **kwargs)
             if cfg["route"] == "featuredict":
                 # second construction from a pre-built registry (as load_tracks/from_tracks do)
-                fd = ff.FeatureDict.from_json(copy.deepcopy(tracks.features.dump_json()))
+                js = copy.deepcopy(tracks.features.dump_json())
+                if cfg.get("fd_drop_lineage") and tracks.features.lineage_key is not None:
+                    # the lineage feature is simply not part of this registry: it stays switched
+                    # off (the attribute on the graph is then nobody's business)
+                    js["FeatureDict"]["features"].pop(tracks.features.lineage_key, None)
+                    js["FeatureDict"]["lineage_key"] = None
+                fd = ff.FeatureDict.from_json(js)
                 tracks = SolutionTracks(g, segmentation=seg, scale=copy.deepcopy(cfg["scale"]),
                                         ndim=self.ndim, features=fd)
             tracks.features[CUSTOM_NODE] = ff.Feature(
